@@ -336,6 +336,13 @@ Section CsvLayer.
     end.
 End CsvLayer.
 
+(* what is assumed of the csv crate: a header and records of the same length
+   written with csv::Writer are read back by csv::Reader *)
+Definition csv_layer_ok (csv_write : list (list bytes) -> bytes)
+           (csv_read : bytes -> res (list (list bytes))) : Prop :=
+  forall h rows, h <> [] -> Forall (fun r => length r = length h) rows ->
+                 csv_read (csv_write (h :: rows)) = Ok (h :: rows).
+
 (* ---- executable validity of a transaction list (the domain of C11) ---- *)
 Definition valid_car (c : car) : bool :=
   valid_cur (c_cur c) && valid_dec (c_rate c) && dec_pos (c_rate c)
@@ -402,6 +409,13 @@ Definition tx_same (glob_ok : bool) (t t' : ctx) : bool :=
   && act_eqv (x_act t) (x_act t') && beqb (trim (x_memo t)) (x_memo t')
   && (affdata_eqb (x_af t) (x_af t')
       || (glob_ok && is_xsplit (x_act t) && aff_is_default (x_af t) && aff_is_global (x_af t'))).
+
+(* read_index = position, counted from ri *)
+Fixpoint ri_from (ri : N) (l : list ctx) : bool :=
+  match l with
+  | [] => true
+  | t :: r => (x_ri t =? ri) && ri_from (ri + 1) r
+  end.
 
 Fixpoint forall2b {T} (f : T -> T -> bool) (a b : list T) : bool :=
   match a, b with
